@@ -180,6 +180,21 @@ def sc_c18(env, spec, v, cfg):
             ok, _ = _guard(env, what + f" of array field {fn} through the dressed attribute", setattr, h, HY.pyname(spec, fn), np.array(new, dtype=tg.build(ft[1])._dtype) if st[2:] and st[2] == "nd" else new)
             if ok:
                 cur = dict(cur, **{fn: new})
+        elif st[0] == "setxa" and arrays:
+            # an array element written through the underlying struct, typically after the buffer has grown under the
+            # dressed object: the dressed attribute must show the buffer's data (M10-C18: a view kept across growth).
+            # Real buffers only: the typed views of the symbolic buffer (S14) write back but do not alias reads, so a
+            # legitimate cache of a view would look stale there.
+            if env.symbolic:
+                continue
+            fn, ft = arrays[st[1] % len(arrays)]
+            old = cur[fn]
+            new = _other_array(ft, old, stepno + 1)
+            if new is None:
+                continue
+            ok, _ = _guard(env, what + f" of the elements of array field {fn} through the underlying struct", _xseta, h._xobject, fn, new)
+            if ok:
+                cur = dict(cur, **{fn: new})
         elif st[0] == "assign_nested" and nested:
             fn, ft = nested[st[1] % len(nested)]
             ov = variant_of(ft, cur[fn], stepno + 1)
@@ -342,6 +357,13 @@ def _xset(xobj, path, value):
     for fn in path[:-1]:
         xobj = getattr(xobj, fn)
     setattr(xobj, path[-1], value)
+
+
+def _xseta(xobj, fn, new):
+    arr = getattr(xobj, fn)
+    a = np.array(new)
+    for idx in np.ndindex(a.shape):
+        arr[idx if len(idx) > 1 else idx[0]] = a[idx].item()
 
 
 def _other_array(ft, old, k):
